@@ -279,6 +279,7 @@ theorem same_harmless (s : St) {e : Ev} (h : Harmless e) : Same s (exec s e) := 
   cases e with
   | sys op => cases op <;> simp [Harmless] at h <;> exact ⟨rfl, fun _ _ => rfl, rfl, rfl, fun _ hj => hj⟩
   | created => simp [Harmless] at h
+  | reused => simp [Harmless] at h
   | done j => exact ⟨rfl, fun _ _ => rfl, rfl, rfl, fun _ hj => List.mem_append_left _ hj⟩
   | dumped js => simp [Harmless] at h
 
@@ -286,6 +287,7 @@ theorem fs_harmless (s : St) {e : Ev} (h : Harmless e) : (exec s e).fs = s.fs :=
   cases e with
   | sys op => cases op <;> simp [Harmless] at h <;> rfl
   | created => simp [Harmless] at h
+  | reused => simp [Harmless] at h
   | done j => rfl
   | dumped js => simp [Harmless] at h
 
@@ -730,6 +732,7 @@ def Causal : List Job → List Act → Prop
   | d, .finish j :: as => Causal (d ++ [j]) as
   | d, .dump js _ _ :: as => (∀ j ∈ js, j ∈ d) ∧ Causal d as
   | d, .create _ :: as => Causal d as
+  | d, .recreate _ :: as => Causal d as
   | d, .resume :: as => Causal d as
   | d, .endCall _ _ :: as => Causal d as
 
@@ -770,6 +773,9 @@ theorem doneOf_expand (s : St) (a : Act) :
   | create st =>
     simp only [expand]
     split <;> simp [doneOf]
+  | recreate st =>
+    simp only [expand, fixed, Bool.true_or, if_true]
+    split <;> simp [doneOf]
   | resume => rfl
   | finish j => rfl
   | dump js sizes stamp =>
@@ -801,6 +807,9 @@ theorem Inv.of_expand {s : St} (hf : Full s) (a : Act)
     (hd : ∀ js sz st, a = .dump js sz st → ∀ j ∈ js, j ∈ s.done) : Inv s (expand fixed s a) := by
   cases a with
   | create st => exact .of_create hf.vis st
+  | recreate st =>
+    have h := Inv.of_create hf.vis st
+    simpa [expand, fixed] using h
   | resume => exact .created [] rfl hf.vis (.inl rfl)
   | finish j => exact .idle hf (by simp [expand, Harmless])
   | dump js sizes stamp =>
@@ -855,6 +864,7 @@ theorem Causal.tail {s : St} {a : Act} {as : List Act} (h : Causal s.done (a :: 
   rw [done_execAll, doneOf_expand]
   cases a with
   | create st => simpa [Causal] using h
+  | recreate st => simpa [Causal] using h
   | resume => simpa [Causal] using h
   | finish j => simpa [Causal] using h
   | dump js sz st => simpa [Causal] using h.2
@@ -1012,5 +1022,94 @@ theorem hist_grows (runs : List Run) (s : St) (hv : Vis s) (hok : RunsOK s runs)
     have h3 : p ++ e :: r = p ++ [e] ++ r := by simp
     rw [h3]
     exact h1.trans (by simpa using h2)
+
+/-! ## 6. a write cut short by the kernel -/
+
+/-- the next pending event is a `write`: it goes to the temporary file, or it appends complete rows
+of finished jobs to a good `results.csv` -/
+theorem Inv.write_cases {s : St} {n : Name} {c : List Line} {rest : List Ev}
+    (h : Inv s (.sys (.write n c) :: rest)) :
+    n = .tmp ∨ (n = .results ∧ ∃ c0, get s.fs .results = some c0 ∧ wellFormed c0 = true ∧
+      (∀ j ∈ jobsOf c0, j ∈ s.done) ∧ (∀ j ∈ s.dumped, j ∈ jobsOf c0) ∧ IsRows c ∧
+      ∀ j ∈ jobsOf c, j ∈ s.done) := by
+  cases h with
+  | idle hf hp =>
+    have := hp _ (List.mem_cons_self ..)
+    simp [Harmless] at this
+  | created tl hp => simp at hp
+  | toBackup st k c' hp => simp at hp
+  | appOpen js cs hp => simp at hp
+  | appWrite js js1 cs c0 hp hr hw hc hjs hrows hj hd hs =>
+    cases cs with
+    | nil => simp [writes] at hp
+    | cons c1 cs' =>
+      simp only [writes, List.map_cons, List.cons_append] at hp
+      injection hp with he _
+      injection he with he
+      injection he with hn hcc
+      subst hn; subst hcc
+      simp only [List.flatten_cons] at hjs hrows
+      refine .inr ⟨rfl, c0, hr, hw, ?_, ?_, hrows.append_left, ?_⟩
+      · intro j hjc; rw [hc] at hjc
+        rcases List.mem_append.1 hjc with h | h
+        · exact hd j h
+        · exact sublist_done hjs hj j h
+      · intro j hjd; rw [hc]; exact List.mem_append_left _ hjd
+      · intro j hjc
+        apply hj j
+        rw [← hjs, jobsOf_append]
+        exact List.mem_append_right _ (List.mem_append_left _ hjc)
+  | appDone js c' hp => simp at hp
+  | tmpOpen pre cs tc mid post hp hpre =>
+    cases pre with
+    | nil => simp at hp
+    | cons e' pre' =>
+      simp only [List.cons_append] at hp
+      injection hp with he _
+      have := hpre e' (List.mem_cons_self ..)
+      rw [← he] at this
+      simp [Harmless] at this
+  | tmpWrite t cs tc mid post hp =>
+    cases cs with
+    | nil => simp [writes] at hp
+    | cons c1 cs' =>
+      simp only [writes, List.map_cons, List.cons_append] at hp
+      injection hp with he _
+      injection he with he
+      injection he with hn _
+      exact .inl hn
+  | tmpMid tc mid post hp ht hc =>
+    cases hc with
+    | first js hpo htc hs hd hj hne hm =>
+      rcases hm with ⟨h1, _⟩ | ⟨st, k, c', h1, _⟩ <;> subst h1 <;> simp at hp
+    | rewrite c' hm => subst hm; simp at hp
+  | firstDone js hp => simp at hp
+
+/-- a `write` to `results.csv` that the kernel cuts short inside a line leaves the earlier content, the
+complete lines before the cut and ONE incomplete last line of a finished job; a torn `write` to the
+temporary file leaves `results.csv` untouched -/
+theorem torn_write {s : St} {n : Name} {c : List Line} {rest : List Ev}
+    (h : Inv s (.sys (.write n c) :: rest)) (a : List Line) (l : Line) (b : List Line)
+    (hc : c = a ++ l :: b) :
+    let s' := exec s (.sys (.write n (tornPayload a l)))
+    (n = .tmp ∧ get s'.fs .results = get s.fs .results) ∨
+    (n = .results ∧ ∃ c0 j, l = .row j false ∧ j ∈ s.done ∧
+      get s'.fs .results = some ((c0 ++ a) ++ [.torn j]) ∧ wellFormed (c0 ++ a) = true ∧
+      (∀ j ∈ jobsOf (c0 ++ a), j ∈ s.done) ∧ (∀ j ∈ s.dumped, j ∈ jobsOf (c0 ++ a))) := by
+  intro s'
+  rcases h.write_cases with hn | ⟨hn, c0, h1, h2, h3, h4, h5, h6⟩
+  · subst hn
+    exact .inl ⟨rfl, step_write_tmp s.fs _ _ (by simp)⟩
+  · subst hn; subst hc
+    obtain ⟨j, rfl⟩ := h5 l (by simp)
+    refine .inr ⟨rfl, c0, j, rfl, h6 j (by simp [jobsOf_append, jobsOf]), ?_,
+      wellFormed_append h2 h5.append_left, ?_, ?_⟩
+    · simp [s', exec, Files.step, h1, tornPayload, Line.tear]
+    · intro j' hj'
+      rw [jobsOf_append] at hj'
+      rcases List.mem_append.1 hj' with h | h
+      · exact h3 j' h
+      · exact h6 j' (by rw [jobsOf_append]; exact List.mem_append_left _ h)
+    · intro j' hj'; rw [jobsOf_append]; exact List.mem_append_left _ (h4 j' hj')
 
 end DH.Files
